@@ -88,8 +88,17 @@ non-trivial = >= 2 hops with a non-empty body, or a hop that changes authority o
             prop_oneof![1 => Just(None), 1 => proxy_spec().prop_map(Some)],
             prop_oneof![1 => Just(None), 1 => proxy_spec().prop_map(Some)],
             proptest::collection::vec(0u8..6, 0..3),
+            proptest::collection::vec(prop::bool::weighted(0.3), 6),
         )
-            .prop_map(|(method, urls, statuses, ops, body, http_proxy, https_proxy, no_proxy)| {
+            .prop_map(|(method, mut urls, statuses, ops, body, http_proxy, https_proxy, no_proxy, flips)| {
+                // some hops keep the host of the previous hop and change only the scheme (the proxy choice depends on both)
+                for i in 1..urls.len() {
+                    if flips[i] && !matches!(urls[i - 1].host, HostSpec::V6(_)) {
+                        urls[i].host = urls[i - 1].host.clone();
+                        urls[i].https = !urls[i - 1].https;
+                        urls[i].port = crate::urlgen::PortSpec::None;
+                    }
+                }
                 let n = urls.len() - 1;
                 Case {
                     method: method.to_string(),
